@@ -116,6 +116,9 @@ class ModeSys(System):
         ops += [('mode', 'r'), ('mode', 'r+'), ('reopen_default',), ('reopen_rw',), ('metamode', 'r'), ('metamode', 'r+')]
         if arr:
             ops += [('badopen',)]
+            if m['n'] > 0:
+                ops += [('nested_rw_assign',)]
+        ops += [('mode', 'w'), ('metamode', 'w')]       # invalid modes: refused, nothing changes
         return ops, dis
 
     # ------------------------------------------------------------------ step
@@ -132,6 +135,33 @@ class ModeSys(System):
         newm = self.copy_model()
         valid = True          # would the call be valid in mode r+ ?
         effect = None         # predicate on the handle, evaluated after a successful call
+        if kind in ('mode', 'metamode') and op[1] == 'w':
+            target = h if kind == 'mode' else h.metadata
+            what, val = outcome_of(lambda: setattr(target, 'accessmode', 'w'))
+            label = what if what == 'returns' else f'raises:{exc_class(val)}'
+            if what == 'returns':
+                return StepResult(label, [viol('mode', opdesc, pre, 'invalid access mode accepted', f'{opdesc} returned')], diverged=True)
+            return StepResult(label)        # the model is unchanged: later operations must still honour the old mode
+        if kind == 'nested_rw_assign':
+            # inside a default (handle-mode) context, a nested context asks for r+ and is left again; then an assignment
+            before = snapshot.snap(self.path)
+
+            def seq():
+                with h.open_array():
+                    with h.open_array(accessmode='r+'):
+                        pass
+                    h[0] = row[0]
+            what, val = outcome_of(seq)
+            label = what if what == 'returns' else f'raises:{exc_class(val)}'
+            after = snapshot.snap(self.path)
+            V = []
+            if m['mode'] == 'r':
+                if what == 'returns' or after != before:
+                    V.append(viol('mode', opdesc, pre, 'write through a read-only handle after a nested r+ context',
+                                  f'{opdesc} in state [{pre}]: {label}; files changed: {snapshot.diff(before, after)[:3]}'))
+            elif what == 'raises':
+                V.append(viol('mode', opdesc, pre, f'{label} in mode r+', f'{opdesc} in state [{pre}]: {val!r}'))
+            return StepResult(label, V, diverged=bool(V))
         if kind == 'badopen':
             # a refused open (invalid access mode) must leave the handle exactly as it was; what it may break is the
             # enforcement of the mode by LATER operations, which the graph explores from the state it leaves behind
